@@ -26,6 +26,7 @@ import   "github.com/pbenner/autodiff/statistics/matrixDistribution"
 
 import . "github.com/pbenner/autodiff"
 import . "github.com/pbenner/threadpool"
+import   "github.com/pbenner/autodiff/verifhook"
 
 /* -------------------------------------------------------------------------- */
 
@@ -102,6 +103,8 @@ func (obj *ShapeHmmEstimator) Emissions(gamma []DenseFloat64Vector, p ThreadPool
   // estimate emission parameters
   g := p.NewJobGroup()
   if err := p.AddRangeJob(0, len(hmm1.Edist), g, func(c int, p ThreadPool, erf func() error) error {
+    verifhook.Yield("matrixEstimator.shapeHmm.job")
+    verifhook.Event("matrixEstimator.shapeHmm", c, p.GetThreadId())
     // copy parameters for faster convergence
     p1 := hmm1.Edist[c].GetParameters()
     p2 := hmm2.Edist[c].GetParameters()
@@ -123,6 +126,7 @@ func (obj *ShapeHmmEstimator) Emissions(gamma []DenseFloat64Vector, p ThreadPool
   }); err != nil {
     return err
   }
+  verifhook.Yield("matrixEstimator.shapeHmm.queued")
   if err := p.Wait(g); err != nil {
     return err
   }
